@@ -854,6 +854,29 @@ func vf26Check(t vfFataler, st *vfStats, s *vf26Sched) {
 	}
 	if dlHit {
 		st.Class("deadline-hit(undecided)")
+		// A healthy case (nothing may close the connection, the peer echoes) whose handshake COMPLETED but whose reader
+		// or writer was only released by the 8 s I/O deadline is a deadlock among the connection's own goroutines, unless
+		// the machine is just slow. Re-execute the schedule once: the same stall twice, each time with a completed
+		// handshake, is reported; a single stall stays undecided.
+		stalled := func(x *vf26Result) bool {
+			return x.FinalErr == nil && x.FinalComplete && (vf26IsTimeout(x.WriterErr) || vf26IsTimeout(x.ReaderErr))
+		}
+		closerEffective := s.Closer == "Close" || (s.Closer == "CloseWrite" && r.CloserErr != errEarlyCloseWrite)
+		anyCtx := false
+		for i := range r.HSErr {
+			if r.CtxErr[i] != nil && r.HSErr[i] == r.CtxErr[i] {
+				anyCtx = true
+			}
+		}
+		if !closerEffective && !anyCtx && stalled(r) {
+			r2 := vf26RunCase(s)
+			closer2 := s.Closer == "Close" || (s.Closer == "CloseWrite" && r2.CloserErr != errEarlyCloseWrite)
+			if r2.Hang == "" && r2.Slow == "" && !closer2 && stalled(r2) {
+				st.Violation(t, "DEADLOCK until the I/O deadline, twice in a row: the handshake completed, nothing closed the connection, yet reader/writer were only released by the %v deadline (writer=%d,%v reader=%d,%v; second run writer=%d,%v reader=%d,%v)\nschedule: %s",
+					vf26IODeadline, r.WriterN, r.WriterErr, len(r.ReaderGot), r.ReaderErr, r2.WriterN, r2.WriterErr, len(r2.ReaderGot), r2.ReaderErr, s)
+			}
+			st.Class("stall-not-reproduced")
+		}
 	}
 }
 
